@@ -20,7 +20,7 @@ Lemma trig_put_q s : QInv s -> QInv (fst (trig_put s)).
 Proof.
   intros (A & B & C & D). unfold trig_put. destruct (putq s) as [|r q] eqn:E; simpl.
   { unfold QInv. rewrite E. auto. }
-  destruct (admit_put s); simpl.
+  destruct (allow_put s); simpl.
   - unfold QInv; simpl. repeat split; auto. eapply sorted_tail; eauto. eapply below_tail; eauto.
   - unfold QInv. rewrite E. auto.
 Qed.
@@ -29,7 +29,7 @@ Lemma trig_get_q s s' ts : trig_get s = Some (s', ts) -> QInv s -> QInv s'.
 Proof.
   unfold trig_get. intros E (A & B & C & D). destruct (getq s) as [|r q] eqn:EQ.
   { inversion E; subst. unfold QInv. rewrite EQ. auto. }
-  destruct (admit_get s).
+  destruct (allow_get s).
   - destruct (pick s); [|discriminate]. inversion E; subst. unfold QInv; simpl.
     repeat split; auto. eapply sorted_tail; eauto. eapply below_tail; eauto.
   - inversion E; subst. unfold QInv. rewrite EQ. auto.
@@ -101,7 +101,7 @@ Theorem trig_put_serves_min s s' t :
               forall y, In y q -> rlt r y.
 Proof.
   intros (A & _) E. unfold trig_put in E. destruct (putq s) as [|r q] eqn:EQ; [inversion E|].
-  destruct (admit_put s); inversion E; subst. exists r, q. simpl. repeat split; auto.
+  destruct (allow_put s); inversion E; subst. exists r, q. simpl. repeat split; auto.
   intros y Hy. eapply sorted_head_min; eauto.
 Qed.
 
@@ -111,18 +111,18 @@ Theorem trig_get_serves_min s s' t :
                  pick s = Some it /\ forall y, In y q -> rlt r y.
 Proof.
   intros (_ & B & _) E. unfold trig_get in E. destruct (getq s) as [|r q] eqn:EQ; [inversion E|].
-  destruct (admit_get s); [|inversion E].
+  destruct (allow_get s); [|inversion E].
   destruct (pick s) as [it|] eqn:EP; inversion E; subst. exists r, q, it. simpl. repeat split; auto.
   intros y Hy. eapply sorted_head_min; eauto.
 Qed.
 
 (* trigger functions grant at most one request per call *)
 Lemma trig_put_at_most_one s : length (snd (trig_put s)) <= 1.
-Proof. unfold trig_put. destruct (putq s); simpl; auto. destruct (admit_put s); simpl; auto. Qed.
+Proof. unfold trig_put. destruct (putq s); simpl; auto. destruct (allow_put s); simpl; auto. Qed.
 Lemma trig_get_at_most_one s s' ts : trig_get s = Some (s', ts) -> length ts <= 1.
 Proof.
   unfold trig_get. destruct (getq s); [intros [= <- <-]; simpl; auto|].
-  destruct (admit_get s); [|intros [= <- <-]; simpl; auto].
+  destruct (allow_get s); [|intros [= <- <-]; simpl; auto].
   destruct (pick s); [|discriminate]. intros [= <- <-]. simpl; auto.
 Qed.
 
@@ -190,7 +190,7 @@ Theorem grant_discipline s s' t :
     end.
 Proof.
   unfold trig_get. destruct (getq s) as [|r q]; [intros [= <-]|].
-  destruct (admit_get s); [|intros [= <-]].
+  destruct (allow_get s); [|intros [= <-]].
   destruct (pick s) as [it|] eqn:EP; [|discriminate]. intros [= <- <-].
   exists r, it. simpl. repeat split; auto.
   unfold pick in EP. destruct (s_mode s); exact EP.
